@@ -537,6 +537,12 @@ def on_agg(self, li, si, st, meta, issue, r):
         refs.append(("agg-vs-model", Q.aggregate(Q.select(self.model.live(t, states=("must",)), q), q)))
     for clause, ref in refs:
         want = {tuple(_norm_cell(x) for x in k): v for k, v in ref.items()}
+        if not (q.get("by") or q.get("per")) and list(ref.keys()) == [()] and all(
+                v in (0, None) for v in ref[()].values()) and len(got) <= 1:
+            # aggregate over an empty selection without grouping: an empty table and a single row of
+            # zero / null metrics are both acceptable renderings
+            if not got or all(_metrics_equal(got[k].get(c), w) or got[k].get(c) in (0, None) for k in got for c, w in ref[()].items()):
+                continue
         lim = q.get("limit")
         if lim is not None:
             if len(got) != min(lim, len(want)):
